@@ -81,7 +81,7 @@ func TestC17(t *testing.T) {
 	// (a) direct calls on a real keeper
 	n := vn.New(vn.Config{Seed: uint64(r.Seed), NumVals: 1, NumAccounts: 2})
 	n.BeginBlock(vn.BlockOpts{})
-	nd := r.Pick(160000, 12000000)
+	nd := r.Cases(160000, 12000000)
 	for i := 0; i < nd; i++ {
 		// direct cases are cheap: shard by contiguous ranges via modulo
 		if i%r.NShards != r.Shard.Shard && !r.Replaying() {
@@ -96,7 +96,7 @@ func TestC17(t *testing.T) {
 	n.EndBlock()
 	n.Commit()
 	// (b) block sequences
-	nh := r.Pick(64, 3200)
+	nh := r.Cases(64, 3200)
 	for i := 0; i < nh; i++ {
 		id := fmt.Sprintf("seq/%d", i)
 		if !r.Want(id, i) {
